@@ -343,3 +343,38 @@ func Shadow() string {
 	}
 	return fmt.Sprint(total)
 }
+
+// ---- a named channel type with methods ------------------------------------------
+
+type bufPool chan []string
+
+var spare = make(bufPool, 2)
+
+func (p bufPool) get() (b []string) {
+	select {
+	case b = <-p:
+	default:
+		b = make([]string, 0, 4)
+	}
+	return b[:0]
+}
+
+func (p bufPool) put(b []string) {
+	if p == nil {
+		return
+	}
+	select {
+	case p <- b:
+	default:
+	}
+}
+
+func NamedChan() string {
+	b := spare.get()
+	b = append(b, "x", "y")
+	n := len(b)
+	spare.put(b)
+	c := spare.get()
+	spare.put(c)
+	return fmt.Sprint(n, len(spare), cap(spare), len(c))
+}
